@@ -3,7 +3,7 @@
    state transitions and the maturity of unbonding validators. *)
 From stdpp Require Import gmap.
 Require Import Model.Base Model.Validate Model.State Model.Staking Model.Slashing Model.Poa.
-Require Import proofs.Inv proofs.InvIdx proofs.L1Effects.
+Require Import proofs.EvBasic proofs.Inv proofs.InvIdx proofs.L1Effects.
 Open Scope Z_scope.
 
 Record SI (s : staking) : Prop := {
